@@ -52,6 +52,10 @@ class ProcState:
         self.jobs = {}     # x -> job of first submission
         self.results = {}
         self.dups = []
+        self.parthreads = []     # second user threads of this process ('par' operation)
+        self.parouts = []
+        self.parx = set()
+        self.outids = {}
 
 
 class Runner:
@@ -380,12 +384,20 @@ class Runner:
         job = task.__xpm__.job
         first = st.jobs.get(x)
         registered = xp.scheduler.jobs.get(job.identifier)
+        if first is None and x in st.parx and registered is not None and registered is not job:
+            # the other user thread's submission of the same configuration was registered first:
+            # the live job of x is that one
+            w.jobx[id(job)] = x
+            live = registered
+        else:
+            live = job
         info = dict(
-            x=x, dup=dup, ident=job.identifier[:12],
+            x=x, dup=dup, ident=job.identifier[:12], oid=self.oid(st, out), out_none=out is None,
             njobs_before=before, njobs_after=len(xp.scheduler.jobs),
             registered_is_this=registered is job,
             has_future=getattr(job, "_future", None) is not None,
         )
+        job = live
         if first is None:
             st.obj[x], st.out[x], st.jobs[x] = task, out, job
             if getattr(st, "mode", "normal") == "normal" or x not in w.jobdir:
@@ -407,6 +419,28 @@ class Runner:
                 st.jobs[x] = job
                 st.obj[x], st.out[x] = task, out
         k.log("submit-return", **info)
+
+    def oid(self, st, out):
+        """Small number standing for the identity of an object returned by submit (id() itself
+        would differ from one execution to the next)."""
+        return st.outids.setdefault(id(out), len(st.outids))
+
+    def par_submit(self, st, x):
+        """Body of a second user thread of the process: submits the configuration of task x
+        (a task without upstream) while the main thread goes on with its plan."""
+        k, w = self.k, self.w
+        task, init = self.build(st, x)
+        k.log("par-submit-call", x=x)
+        try:
+            out = task.submit(init_tasks=init) if init else task.submit()
+        except Exception as e:
+            k.log("par-submit-raise", x=x, exc=type(e).__name__, msg=str(e)[:200])
+            return
+        job = task.__xpm__.job
+        w.jobx.setdefault(id(job), x)
+        st.parouts.append((task, out, job))
+        k.log("par-submit-return", x=x, oid=self.oid(st, out), out_none=out is None, has_future=getattr(job, "_future", None) is not None,
+              registered_is_this=st.xp.scheduler.jobs.get(job.identifier) is job)
 
     def pid_status(self, x):
         """State of the job's pid file / process as an outside observer sees it."""
@@ -481,6 +515,15 @@ class Runner:
                 k.park()
         elif name == "linger":
             self.linger(proc)
+        elif name == "par":
+            from .world import SimThread
+
+            x = op[1]
+            st.parx.add(x)
+            k.count("probe:concurrent-user-submit")
+            t = SimThread(target=lambda: self.par_submit(st, x), name="user-par-%d" % x)
+            t.start()
+            st.parthreads.append(t)
         elif name == "mutate":
             from .c14 import do_mutate
 
@@ -631,6 +674,8 @@ class Runner:
                 k.log("xp-entered", xp=spec["xp"])
                 for op in spec["plan"]:
                     self.do_op(proc, st, op)
+                for t in st.parthreads:
+                    t.join()
                 k.log("xp-block-end")
             k.log("xp-exit", exc=None, states=self.job_states(st))
             k.log("index", xp=spec["xp"], when="exit", snap=self.index_snapshot(spec["xp"]),
